@@ -424,6 +424,8 @@ class Machine(Interp):
             g = gens[0]
             src = self.force(self.eval(g.iter, env), n)
             unb = self.unbounded_source(src)
+            if unb is not None and isinstance(src, SRange) and getattr(self, "concretize_ranges", False) and not self.nofork and not self.in_spec:
+                unb = None  # bounded mode: the symbolic bound is decided on this path and the body runs eagerly, in order
             if unb is not None:
                 return self.comprehension_unbounded(n, g, unb, sub, kind)
         out = []
